@@ -1,3 +1,4 @@
+@value.setter
 def spec(self, value):
     if isinstance(self.__data, nn.Parameter) and value is None:
         raise RuntimeError('cannot assign None to a constrained parameter')
